@@ -42,6 +42,10 @@ WARNING = [".byte\n", ".list\n", "mov @r1, r0\n", ".word\n.title demo\n", "clr @
 ERROR = [".word undef\n", ".byte 400\n", "mov r0\n", "br far\n.blkb 1000\nfar:\n", "x: nop\nx: nop\n", ".word 1/0\n",
          ".byte 1\n.word 2\n", ". = . - 2\n", ".link 1000\n.link 2000\n", ".include \"nope.mac\"\n", ".error stop\n.word 18\n",
          ".include \"bad.mac\"\n", "nop\n.include \"bad.mac\"\n.include \"once.mac\"\n"]
+# programs that register values "to be looked at when the assembly ends" and are then aborted, and programs that leave many
+# once-per-statement marks behind (definitions inside a repeat body)
+ERROR += ["v = w + 1\n\t.word 0 * v\n\t.word r0\nw = 5\n", "v = w\n\t.word v * 0, 1/0\n\t.word undefq\nw = 1\n",
+          "\t.repeat 2 {\n" + "".join(f"lq{q}: nop\nla{q} = {q}\n" for q in range(100)) + "\t}\n"]
 CRITICAL = [".word (1\n", "mov r0,\n", ".ascii \"abc\n", "a = \n", "nop , r0\n", ".word ^Q1\n", "mov #\n",
             "nop\nnop\n\t\t.word 1, ^XG\n", ".byte ^B2\n", "x = ^O8\n", "\n\n\n\n.word ^DA\n"]
 CRASHERS = ["@.\n", "clr (%a)\n", ".word 1 { }\n", "make_wav \"αβγ\"\n", "'\\", "make_raw \"a\" <4294967296.>\n", "ldf %a, ac0\n", "br #.\n"]
